@@ -133,7 +133,8 @@ func genC17(c *Chooser) *Plan {
 	}
 	// an RPC probe per service: the backend must be addressed with that service's own options
 	for _, sm := range [][2]string{{"bare", "PingAll"}, {"sim2", "Plain"}} {
-		cp := ClientPlan{Form: FormConnectUnary, HTTP: 2, Service: sm[0], Method: sm[1], Codec: Pick(c, "proto", "json"), Msgs: []MsgSpec{{Data: []byte{}}}}
+		cp := ClientPlan{Form: Pick(c, FormConnectUnary, FormConnectUnary, FormGRPC, FormGRPCWeb), HTTP: 2, Service: sm[0], Method: sm[1], Codec: Pick(c, "proto", "json"),
+			Compression: Pick(c, "", "", "gzip"), Msgs: []MsgSpec{{Data: []byte{}, Compressed: true}}}
 		p.RPCs = append(p.RPCs, RPCPlan{Client: cp, Backend: BackendPlan{Resp: RespPlan{Msgs: []MsgSpec{{Data: []byte{}}}, TrailerStyle: "prefix"}}})
 	}
 	return p
@@ -206,6 +207,15 @@ func c17Oracle(p *Plan) *Verdict {
 		}
 		b := st.Backend[0]
 		svc := st.svc
+		// exactly what this service's own options (over the defaults, over the built-in defaults) prescribe for this client:
+		// its protocol, codec and compression are kept when the service accepts them, whatever another service was given
+		eff := effectiveService(svc, p.Config.Defaults)
+		if n := refNegotiate(&eff, rc.Client.Form, rc.Client.Codec, rc.Client.Compression); b.Protocol != n.Protocol ||
+			(b.Protocol != ProtoREST && b.Codec != n.Codec) || b.Compression != n.Compression {
+			v.violate("service-options-not-honoured", facts, "service %s (protocols %v codecs %v compression %v after defaults %v) was addressed in %s/%s/%q; its own options prescribe %s/%s/%q for a %s %s %q client",
+				svc.Schema, eff.protocols(), eff.codecs(), eff.compressions(), p.Config.Defaults, b.Protocol, b.Codec, b.Compression, n.Protocol, n.Codec, n.Compression, rc.Client.Form, rc.Client.Codec, rc.Client.Compression)
+			continue
+		}
 		if !contains(svc.protocols(), b.Protocol) {
 			v.violate("service-options-not-honoured", facts, "service %s is configured with protocols %v (defaults: %v) but its handler was addressed in %s", svc.Schema, svc.protocols(), p.Config.Defaults, b.Protocol)
 		}
@@ -215,6 +225,23 @@ func c17Oracle(p *Plan) *Verdict {
 		v.probe("options-probed")
 	}
 	return v
+}
+
+// effectiveService: a service's options over WithDefaultServiceOptions over the built-in defaults.
+func effectiveService(svc *ServicePlan, def *ServicePlan) ServicePlan {
+	eff := *svc
+	if def != nil {
+		if eff.Protocols == nil && !eff.EmptyProtocols {
+			eff.Protocols = def.Protocols
+		}
+		if eff.Codecs == nil && !eff.EmptyCodecs {
+			eff.Codecs = def.Codecs
+		}
+		if eff.Compression == nil && !eff.NoCompression {
+			eff.Compression, eff.NoCompression = def.Compression, def.NoCompression
+		}
+	}
+	return eff
 }
 
 // c17StillInvalid re-derives the defect from the plan (a shrunk plan may have lost it).
